@@ -105,7 +105,11 @@ def main(argv):
         violations += 1
 
     wall = time.time() - t0
-    harness.write_evidence(pid, tier, seed, rec, mod.RULE, wall, violations, list(mod.ASSUMPTIONS), known_lines)
+    g = selftest.gpg_crosschecks()
+    oracle = {'reference_selftest': 'RFC examples + 62 GnuPG-made fixture signatures verified by refpgp',
+              'gnupg_crosschecks': ('%d artefacts cross-checked between refpgp and /usr/bin/gpg (certificates, binary/text/cleartext signatures, symmetric and public-key '
+                                    'encryption, both directions)' % g) if g is not None else 'gpg not installed: skipped'}
+    harness.write_evidence(pid, tier, seed, rec, mod.RULE, wall, violations, list(mod.ASSUMPTIONS), known_lines, extra={'oracle_validation': oracle})
     print('%s %s seed=%d: evaluations=%d distinct_nontrivial=%d violations=%d known=%d inconclusive=%s wall=%.1fs' % (
         pid, tier, seed, rec.evaluations, len(rec.nontrivial), violations, len(known_lines), rec.inconclusive, wall))
     if len(rec.nontrivial) < 2 or rec.evaluations < 1:
